@@ -84,10 +84,15 @@ def apply(fn, idx, kind):
 VERBOSE = False
 
 
+def head_source(rel, _cache={}):
+    if rel not in _cache:
+        _cache[rel] = subprocess.run(["git", "-C", "/repo", "show", "HEAD:" + rel], capture_output=True, text=True, check=True).stdout
+    return _cache[rel]
+
+
 def run_one(job):
     prop, rel, qual, desc, line, idx, kind, wt = job
-    src_path = os.path.join("/repo", rel)
-    src = open(src_path, encoding="utf-8").read()
+    src = head_source(rel)          # the committed source, not /repo's working tree (which other experiments may have patched)
     tree = ast.parse(src)
     fn = find_function(tree, qual)
     if fn is None:
@@ -126,6 +131,9 @@ def run_one(job):
             out["check_exit"] = c.returncode
             v = [l for l in c.stdout.splitlines() if l.startswith("  obligation")]
             out["first"] = v[0][:200] if v else ""
+            vl = [l for l in c.stdout.splitlines() if l.startswith("VIOLATION")]
+            out["violation_lines"] = len(vl)
+            out["without_input"] = len([l for l in vl if l.rstrip().endswith("no-failing-input-found")])
             if VERBOSE:
                 out["stdout"] = c.stdout[-3000:]
                 out["stderr"] = c.stderr[-3000:]
@@ -167,7 +175,7 @@ def main():
     if a.rerun:
         for r in RER:
             rel, qual = r["target"].split("::")
-            fn = find_function(ast.parse(open(os.path.join("/repo", rel), encoding="utf-8").read()), qual)
+            fn = find_function(ast.parse(head_source(rel)), qual)
             for (desc, line, idx, kind) in (mutants_of(fn) if fn is not None else []):
                 if (desc, line) == (r["op"], r["line"]):
                     jobs.append([r["prop"], rel, qual, desc, line, idx, kind, None])
@@ -181,7 +189,7 @@ def main():
                 continue
             seen.add(tgt)
             rel, qual = tgt.split("::")
-            tree = ast.parse(open(os.path.join("/repo", rel), encoding="utf-8").read())
+            tree = ast.parse(head_source(rel))
             fn = find_function(tree, qual)
             if fn is None:
                 continue
